@@ -18,16 +18,16 @@ int xv_threw; uint64_t xv_clock, xv_rmw_old; _Bool xv_cas_ok;
 typedef uintptr_t entry;
 
 /* ---- container stub: contracts proved in unit gca ---- */
-struct items { size_t cap; unsigned grows; };
+struct items { size_t cap; unsigned grows; _Bool fixed; };   /* fixed: policy::container = fixed_size_circular_array (contracts proved in unit fsca: can_grow() is false, grow() throws) */
 struct cwsd { struct items _items; size_t _bottom; size_t _top; };
 #define MAX_CAP ((size_t)1 << 31)
 #define MAX_IDX ((size_t)1 << 62)   /* assumption: fewer than 2^62 pushes in the life of a deque (try_steal computes a signed difference) */
 size_t g_j; entry g_v;          /* ghost: the cell of every index congruent to g_j (mod cap) holds g_v */
 uint64_t get_clock; size_t get_idx; entry get_val; unsigned get_count;
 static size_t IT_capacity(struct items s) { return s.cap; }
-static _Bool IT_can_grow(struct items s) { return s.cap < MAX_CAP; }
+static _Bool IT_can_grow(struct items s) { return !s.fixed && s.cap < MAX_CAP; }
 #define IT_capacity(s) ((s).cap)
-#define IT_can_grow(s) ((s).cap < MAX_CAP)
+#define IT_can_grow(s) (!(s).fixed && (s).cap < MAX_CAP)
 static void it_put(struct items* s, size_t idx, entry v, int order) { if (((idx ^ g_j) & (s->cap - 1)) == 0) g_v = v; }
 static entry it_get(struct items* s, size_t idx, int order) {
   get_clock = xv_clock; get_idx = idx; get_count++;
@@ -35,7 +35,7 @@ static entry it_get(struct items* s, size_t idx, int order) {
 _Bool grow_pre_ok = 1;
 static void it_grow(struct items* s, size_t b, size_t t) {
   /* requires of gca_grow */
-  if (!(s->cap < MAX_CAP && b >= t && b - t == s->cap)) grow_pre_ok = 0;
+  if (!(!s->fixed && s->cap < MAX_CAP && b >= t && b - t == s->cap)) grow_pre_ok = 0;   /* the fixed container's grow() throws: calling it is a contract violation of try_push (it must report 'full') */
   if (!(g_j >= t && g_j < b)) g_v = nondet_uptr();   /* only live indices are preserved */
   s->cap *= 2; s->grows++;
 }
@@ -71,7 +71,7 @@ void xv_env(void) {
   } else {                          /* we are a thief: anything may happen to top, bottom and the cells */
     mon_self->_top = nondet_size(); mon_self->_bottom = nondet_size(); g_v = nondet_uptr();
     XV_ASSUME(mon_self->_top < MAX_IDX && mon_self->_bottom < MAX_IDX);
-    if (nondet_bool() && mon_self->_items.cap < MAX_CAP) mon_self->_items.cap *= 2;
+    if (nondet_bool() && !mon_self->_items.fixed && mon_self->_items.cap < MAX_CAP) mon_self->_items.cap *= 2;
   }
 }
 #endif
@@ -84,7 +84,7 @@ size_t xv_policy_capacity;
 
 static void havoc_state(struct cwsd* d) {
   unsigned c = nondet_uint(); XV_ASSUME(c >= 1 && c <= 31);
-  d->_items.cap = (size_t)1 << c; d->_items.grows = 0;
+  d->_items.cap = (size_t)1 << c; d->_items.grows = 0; d->_items.fixed = nondet_bool();
   d->_bottom = nondet_size(); d->_top = nondet_size();
   XV_ASSUME(d->_top <= d->_bottom && d->_bottom - d->_top <= d->_items.cap && d->_bottom < MAX_IDX);
   g_j = nondet_size(); g_v = nondet_uptr(); mon_self = d; xv_policy_capacity = nondet_size();
@@ -97,9 +97,9 @@ void h_push(void) {
   XV_ASSUME(g_j >= t && g_j <= b);          /* an arbitrary live index, or the slot about to be filled */
   _Bool r = cwsd_try_push(&d, item);
   _Bool full = (b - t == cap);
-  if (full && cap >= MAX_CAP) {
-    XV_OBL("cwsd.push.appends", !r && d._bottom == b && d._top == t && d._items.cap == cap && g_v == old);
-    XV_CANARY("push.full_nogrow");
+  if (full && (cap >= MAX_CAP || d._items.fixed)) {
+    XV_OBL("cwsd.push.appends", !r && d._bottom == b && d._top == t && d._items.cap == cap && g_v == old && d._items.grows == 0 && grow_pre_ok);
+    if (d._items.fixed) XV_CANARY("push.full_fixed"); else XV_CANARY("push.full_nogrow");
   } else {
     XV_OBL("cwsd.push.appends", r && d._bottom == b + 1 && d._top == t);
     XV_OBL("cwsd.push.appends", g_v == (g_j == b ? item : old));
@@ -142,6 +142,14 @@ void h_steal(void) {
     XV_OBL("cwsd.sync.seq_cst", mon_bottom_load_order == mo_seq_cst && mon_top_cas_order == mo_seq_cst);
     XV_CANARY("steal.ok");
   }
+}
+
+void h_size(void) {
+  struct cwsd d; havoc_state(&d);
+  size_t b = d._bottom, t = d._top;
+  size_t n = cwsd_size(&d);
+  XV_OBL("cwsd.size.spec", n == b - t && d._bottom == b && d._top == t && mon_bottom_store_count == 0 && mon_top_store_count == 0 && mon_top_cas_count == 0);
+  if (n > 1) XV_CANARY("size.some");
 }
 
 void h_steal_int(void) {
